@@ -153,6 +153,7 @@ func (tx *Transaction) Commit(ctx context.Context, scope *ReferenceScope, expr p
 				return NewSystemError(err.Error())
 			}
 
+			file.VerifPoint("tx.commit.encode")
 			if _, err := EncodeView(ctx, fp, view, fileInfo.ExportOptions(tx), tx.Palette); err != nil {
 				return NewCommitError(expr, err.Error())
 			}
@@ -179,6 +180,7 @@ func (tx *Transaction) Commit(ctx context.Context, scope *ReferenceScope, expr p
 				return NewSystemError(err.Error())
 			}
 
+			file.VerifPoint("tx.commit.encode")
 			if _, err := EncodeView(ctx, fp, view, fileInfo.ExportOptions(tx), tx.Palette); err != nil {
 				return NewCommitError(expr, err.Error())
 			}
@@ -193,7 +195,9 @@ func (tx *Transaction) Commit(ctx context.Context, scope *ReferenceScope, expr p
 		}
 	}
 
+	file.VerifPoint("tx.commit.encoded")
 	for _, f := range createFileInfo {
+		file.VerifPoint("tx.commit.create")
 		if err := tx.FileContainer.Commit(f.Handler); err != nil {
 			return NewCommitError(expr, err.Error())
 		}
@@ -201,6 +205,7 @@ func (tx *Transaction) Commit(ctx context.Context, scope *ReferenceScope, expr p
 		tx.LogNotice(fmt.Sprintf("Commit: file %q is created.", f.Path), tx.Flags.Quiet)
 	}
 	for _, f := range updateFileInfo {
+		file.VerifPoint("tx.commit.update")
 		if err := tx.FileContainer.Commit(f.Handler); err != nil {
 			return NewCommitError(expr, err.Error())
 		}
